@@ -396,7 +396,20 @@ func H_AliasAmbiguity() {
 	others := vrt.Param("others", 0) // further tokens already spelled 'x'
 	h := vrt.Byte("lit")
 	vrt.Assume(vAlnum(h))
-	text := "@lexer\nTA = 'q'\nTB = '" + string([]byte{h}) + "'\n"
+	// the second hole is what follows the literal of TB: a blank (TB is a simple
+	// literal and defines the alias) or a cardinality (it does not: "a literal
+	// may be used in the parser only when the token definition is a simple
+	// literal")
+	card := vrt.Byte("card")
+	vrt.Assume(vrt.Or(vrt.Or(card == ' ', card == '+'), vrt.Or(card == '*', card == '?')))
+	text := "@lexer\nTA = 'q'\nTB = '" + string([]byte{h}) + "'" + string([]byte{card}) + "\n"
+	// a token spelled 'x' with a cardinality never counts
+	switch vrt.Param("rep", 0) {
+	case 1:
+		text += "TR = 'x'+\n"
+	case 2:
+		text += "TR = 'x'*\n"
+	}
 	if others >= 1 {
 		text += "@mode MA {\nTC = 'x' @pop_mode\n}\n"
 	}
@@ -413,7 +426,7 @@ func H_AliasAmbiguity() {
 	ok, diag := vRun([]byte(text))
 	count := others
 	unique := false
-	if h == 'x' {
+	if h == 'x' && card == ' ' {
 		count++
 	}
 	unique = count == 1
